@@ -352,8 +352,33 @@ impl ProcfsHandle {
         oflags: F,
     ) -> Result<File, Error> {
         let subpath = subpath.as_ref();
-        let mut oflags = oflags.into();
+        let oflags = oflags.into();
 
+        self.do_open_follow(base, subpath, oflags).or_else(|err| {
+            if self.is_subset && err.kind() == ErrorKind::OsError(Some(libc::ENOENT)) {
+                // Same as in ProcfsHandle::open: the symlink might only exist
+                // on an unmasked procfs (/proc/mounts and /proc/net are not
+                // part of subset=pid). The final component is looked up on
+                // this handle directly, so the retry done by open() for the
+                // readlink probe and for the parent does not cover it.
+                match Self::new_unmasked() {
+                    Ok(unmasked) if !unmasked.is_subset => {
+                        unmasked.do_open_follow(base, subpath, oflags)
+                    }
+                    _ => Err(err),
+                }
+            } else {
+                Err(err)
+            }
+        })
+    }
+
+    fn do_open_follow(
+        &self,
+        base: ProcfsBase,
+        subpath: &Path,
+        mut oflags: OpenFlags,
+    ) -> Result<File, Error> {
         // The final component is opened directly rather than through the
         // resolver, so we have to refuse creation flags here ourselves.
         // O_CREAT on a magic-link would act on whatever the link points to,
